@@ -3,9 +3,10 @@ import os
 import framework as fw
 import cli_stream
 
-THEOREM_MODULES = ["Hcl.Theorems.C19", "Hcl.Tie.Cli"]
+THEOREM_MODULES = ["Hcl.Theorems.C19", "Hcl.Tie.Cli", "Hcl.Tie.PinsMain"]
 THEOREMS = {"Hcl.Theorems.C19": ["C19_exit", "C19_option_error", "C19_output_matches_status", "C19_check_simulates_nothing"],
-            "Hcl.Tie.Cli": ["Tie.Cli.cliOptions", "Tie.Cli.cliDefaultTimeout", "Tie.Cli.cliYoSuffix"]}
+            "Hcl.Tie.Cli": ["Tie.Cli.cliOptions", "Tie.Cli.cliDefaultTimeout", "Tie.Cli.cliYoSuffix"],
+            "Hcl.Tie.PinsMain": ["Tie.PinsMain.pinMainReal"]}
 
 RULE = ("S-CLI: the real binary (cargo build of /repo's working tree) is run on random argument vectors: 0-3 options from the "
         "documented set in short/long spelling incl. unknown and repeated ones, placed before or among 0-4 positionals; HCL file "
